@@ -56,6 +56,26 @@ def check(run, G, gj, uri, case, sch):
     if problems:
         run.violation(case, {"what": "; ".join(problems), "uris": doc["uris"]})
         return
+    # the same write with the dates left to the library (time stamps taken from the clock, so no byte comparison):
+    # still well-formed and schema-valid
+    import io as _io
+    buf = _io.StringIO()
+    try:
+        G.write_nodeset(buf, uri, include_outgoing_instance_level_references=True)
+    except Exception as e:  # noqa: BLE001
+        run.violation(case, {"what": "write_nodeset without dates raised although the write with dates succeeds", "impl": type(e).__name__ + ": " + str(e)[:300]})
+        return
+    text2 = buf.getvalue()
+    try:
+        root2 = ET.fromstring(text2.encode("utf-8"))
+        ok2 = sch.validate(root2)
+        err2 = None if ok2 else str(sch.error_log.last_error)[:400]
+    except (ET.XMLSyntaxError, UnicodeError) as e:
+        ok2, err2 = False, "not well-formed: " + str(e)[:300]
+    if not ok2:
+        run.violation(case, {"what": "the document written without explicit dates is not a valid NodeSet2 document", "error": err2,
+                             "call": "UAGraph.write_nodeset(StringIO, %r)  (no last_modified / publication_date)" % uri})
+        return
     # byte level against the model
     if "err" in mo:
         run.disagree(case, mo, {"ok": True})
